@@ -451,7 +451,21 @@ func (g *gen) trail() string {
 	return ""
 }
 
+// longComment is a comment line longer than any read buffer a lexer is likely
+// to use (4 KiB, 8 KiB): the text after a '#' is insignificant up to the line
+// break however long it is, and it contains everything that would matter if it
+// were not a comment.
+func (g *gen) longComment() string {
+	n := 4000 + g.r.Intn(9000)
+	unit := "lorem { } \"ipsum import x dir0 a b "
+	return "# " + strings.Repeat(unit, n/len(unit)+1)[:n]
+}
+
 func (g *gen) filler(sb *strings.Builder, ind string) {
+	if g.ly.comments == 2 && g.r.Chance(1, 40) {
+		g.feats["long-comment"] = true
+		sb.WriteString(ind + g.longComment() + g.nl())
+	}
 	if g.ly.blanks && g.r.Chance(1, 5) {
 		sb.WriteString(g.nl())
 		if g.r.Chance(1, 3) {
